@@ -86,3 +86,17 @@ Theorem C04_reopen_keeps_maps : forall mode bs1 bs2 an,
   (forall k, has_ep (denote_blocks mode bs1) an k -> has_ep (denote_blocks mode (bs1 ++ bs2)) an k).
 Proof. exact reopen_keeps_maps. Qed.
 Print Assumptions C04_reopen_keeps_maps.
+
+(* ---- order-preserving splits: EXACT equality, the key list in the joined form's (field) order ----
+   `orefines` cuts a type into consecutive shares, adds bare re-opening headers and exchanges neighbouring
+   declarations of different cells only - two shares of one table never change places *)
+Theorem C04_merge_pk_order_preserved : forall files root joined,
+  orefines (bcontent joined) (bcontent (blocks_in_order files (flatten_order files root))) ->
+  denote_files pk_mode files root = denote_blocks pk_mode joined.
+Proof. rewrite current_pk_mode. exact merge_pk_order_preserved. Qed.
+Print Assumptions C04_merge_pk_order_preserved.
+
+Theorem C04_order_hypothesis_met :
+  orefines (bcontent wit_joined) (bcontent (blocks_in_order wit_files (flatten_order wit_files 20%positive))).
+Proof. exact wit_ordered. Qed.
+Print Assumptions C04_order_hypothesis_met.
